@@ -564,6 +564,12 @@ fn configs(prop: &str, thorough: bool) -> Vec<Value> {
             v.push(json!({"harness": "rw", "name": "d-put-vs-flush-vs-get-scan", "height": 1, "template": [],
                 "pre": [["put", "b", "0"]], "initial": {},
                 "threads": [[["put", "a", "1"]], [["flush"]], [["get", "a"], ["scan"]]], "limits": lim()}));
+            // H-g: a write that requests the rollover || the flush iteration that performs it ||
+            // a two-key batch that lands in the new memtable || a scan (the rollover instant)
+            v.push(json!({"harness": "rw", "name": "g-rollover-vs-batch-vs-scan", "height": 1, "template": [],
+                "pre": [["put", "x", "0"]],
+                "threads": [[["put", "y", "1"]], [["flush"]], [["batch", [["a", "1"], ["b", "1"]]]], [["scan"]]],
+                "batch_keys": ["a", "b"], "batch_value": "1", "limits": lim()}));
             // H-e: reader || compaction iteration on a two-file template (version installation)
             v.push(json!({"harness": "rw", "name": "e-get-scan-vs-compaction", "height": 1,
                 "template": [["put", "a", "1"], ["flush"], ["put", "a", "2"], ["put", "b", "2"], ["flush"]],
